@@ -128,3 +128,38 @@ def ref_addr(tab, kind, sec, net):
     pay = bytes([0xc4 if test else 0x05]) + tab.hash160(b"\x00\x20" + h256)
     tab.hash256(pay)
     return R.b58check_enc(pay)
+
+
+BIP85_KEY = b"bip-entropy-from-k"
+
+
+def bip85_path(app, p, i):
+    H = HARD
+    return {"mnemonic": [83696968 + H, 39 + H, 0 + H, p + H, i + H], "wif": [83696968 + H, 2 + H, i + H],
+            "xprv": [83696968 + H, 32 + H, i + H], "hex": [83696968 + H, 128169 + H, p + H, i + H],
+            "pwd": [83696968 + H, 707764 + H, p + H, i + H]}[app]
+
+
+def ref_bip85(tab, master, app, p, i, prf=None, wordlist=None):
+    """record every primitive pair the Bip85 spec will look up; returns (wordtab or None)"""
+    if not (0 <= i < HARD) or not isinstance(p, int) or p < 0 or p >= HARD:
+        return None
+    n = derive(tab, master, bip85_path(app, p, i), prf)
+    if n is None:
+        return None
+    E = _hm(tab, prf, BIP85_KEY, n.k)
+    wordtab = None
+    if app == "mnemonic" and p in (12, 15, 18, 21, 24):
+        ent = E[:p * 4 // 3]
+        h = tab.sha256(ent)
+        bits = bin(int.from_bytes(ent, "big"))[2:].zfill(len(ent) * 8) + bin(int.from_bytes(h, "big"))[2:].zfill(256)[:len(ent) // 4]
+        idx = [int(bits[j:j + 11], 2) for j in range(0, len(bits), 11)]
+        wordtab = [{"i": j, "w": [ord(c) for c in str(wordlist[j])]} for j in sorted(set(idx))]
+    elif app == "wif":
+        tab.hash256(b"\x80" + E[:32] + b"\x01")
+    elif app == "xprv":
+        k = E[32:]
+        if 0 < int.from_bytes(k, "big") < R.N:
+            rn = RNode(k, tab.ptc(k), E[:32], 0, 0, bytes(4), "main")
+            ser(tab, rn, VERSIONS[("prv", "main", "bip44")], True)
+    return wordtab
